@@ -2,9 +2,9 @@
 EXTENDS MC_Limits
 CONSTANT HistLen
 VARIABLE hist
-ASSUME PrintT("@@L " \o ToJson([k |-> K]))
+ASSUME PrintT("@@L " \o ToJson([k |-> K, t |-> T]))
 GenInit == Init /\ hist = << >>
-Obs == [e |-> last', inflight |-> inflight', exceeded |-> exceeded']
+Obs == [e |-> last', running |-> running', waiting |-> waiting', exceeded |-> exceeded']
 GenNext == Len(hist) < HistLen /\ Next /\ hist' = Append(hist, Obs)
 GenSpec == GenInit /\ [][GenNext]_<<vars, hist>>
 Emit == (Len(hist) = HistLen \/ (Len(hist) > 0 /\ ~ENABLED GenNext)) => PrintT("@@H " \o ToJson(hist))
